@@ -129,6 +129,11 @@ func (H) Generate(r *simrt.Rand, tier string) any {
 	if r.Intn(5) == 0 {
 		s.U = 8 + r.Intn(32)
 	}
+	if r.Intn(60) == 0 {
+		// a few hundred members: chunked, sharded or compacting representations have
+		// thresholds (64, 128, 256) that a handful of values never reaches
+		s.U = 64 + r.Intn(240)
+	}
 	s.BuildA, s.BuildB = genBuild(r, s.U), genBuild(r, s.U)
 	s.Lazy = r.Intn(2) == 0
 	n := 1 + r.Intn(10)
